@@ -65,6 +65,40 @@ def _attr_consts(tree):
     return fmt, sep, app
 
 
+def _name_check(tree):
+    """attributes.py: `_INVALID_ATTR_NAME_RE = re.compile("<pattern>")` and the one `if` of attributes_to_string that raises
+    ValueError (its test, unparsed). Returns (pattern, test source)."""
+    pat, test = UNKNOWN, UNKNOWN
+    try:
+        for n in tree.body:
+            if isinstance(n, ast.Assign) and len(n.targets) == 1 and getattr(n.targets[0], "id", None) == "_INVALID_ATTR_NAME_RE":
+                c = n.value
+                if (isinstance(c, ast.Call) and isinstance(c.func, ast.Attribute) and c.func.attr == "compile" and len(c.args) == 1
+                        and not c.keywords and isinstance(c.args[0], ast.Constant) and isinstance(c.args[0].value, str)):
+                    pat = c.args[0].value
+        f = _func(tree, "attributes_to_string")
+        ifs = [n for n in ast.walk(f) if isinstance(n, ast.If) and any(isinstance(b, ast.Raise) for b in n.body)]
+        if len(ifs) == 1:
+            test = ast.unparse(ifs[0].test)
+        # the loop: skip None / False first, then the name check, then True -> bare, else format_html
+        loop = [n for n in ast.walk(f) if isinstance(n, ast.For)]
+        shape = [ast.unparse(n.test) for n in loop[0].body if isinstance(n, ast.If)] if len(loop) == 1 else []
+        test = " ;; ".join(shape) if test != UNKNOWN else UNKNOWN
+    except Exception:  # noqa
+        pass
+    return pat, test
+
+
+def invalid_name_chars(limit=0x3000):
+    """Code points below `limit` that the tree's _INVALID_ATTR_NAME_RE matches (the compiled object, not the source text)."""
+    try:
+        from django_components import attributes
+        rx = attributes._INVALID_ATTR_NAME_RE
+        return [c for c in range(limit) if rx.search(chr(c))]
+    except Exception:  # noqa
+        return None
+
+
 @generator
 def gen_C13():
     from django.utils.html import escape
@@ -84,6 +118,12 @@ def gen_C13():
     out.append("Definition attr_format : str := %s." % C.cstr(fmt))
     out.append("Definition attr_sep : str := %s." % C.cstr(sep))
     out.append("Definition append_sep : str := %s." % C.cstr(app))
+    pat, test = _name_check(att)
+    out.append("Definition invalid_name_pattern : str := %s." % C.cstr(pat))
+    out.append("Definition name_check_tests : str := %s." % C.cstr(test))
+    inv = invalid_name_chars()
+    out.append("(* code points below U+3000 matched by the compiled _INVALID_ATTR_NAME_RE; [9999999] = regex not found *)")
+    out.append("Definition invalid_name_chars : list N := %s." % C.clist([C.cN(c) for c in (inv if inv is not None else [9999999])]))
     out.append("(* django.utils.html.escape on every code point below U+3000 that it changes *)")
     out.append("Definition escape_table : list (N * str) := %s." % C.clist(["(%s, %s)" % (C.cN(c), C.cstr(e)) for c, e in table]))
     return "\n".join(out) + "\n"
